@@ -156,7 +156,10 @@ func mime(v string) string {
 }
 
 // HTTPStack is a decision or proxy service handler chain.
-type HTTPStack struct{ h http.Handler }
+type HTTPStack struct {
+	h   http.Handler
+	srv *httptest.Server // started on demand by DoSocket (request.go)
+}
 
 func NewDecision(r Respond, exec rule.Executor) *HTTPStack {
 	conf := &config.Configuration{}
